@@ -445,7 +445,7 @@ def detectors(ctx):
     hx = lambda d: (repr(getattr(d, "current_distance", None)), repr(getattr(d, "beta", None)), digest(getattr(d, "distances", None)),
                     digest(getattr(d, "epsilon_values", None)), digest(getattr(d, "thresholds", None)), digest(getattr(d, "reference", None)))
     # budget: (histories, ordered container pairs, malformed variants per kind and (assignment, position)) for quick / thorough
-    CH, EX = ((1, 8, 2), (2, 14, 6)), ((1, 2, 1), (2, 6, 3))
+    CH, EX = ((1, 8, 2), (2, 12, 5)), ((1, 2, 1), (2, 5, 2))
     S = [
         dict(name="ADWIN", mode="stream", kind="uni", w=1, L=10, make=lambda: ADWIN(delta=0.5, **aw), shifts=(5,),
              extra=lambda d: (repr(d.retraining_recs), repr(d.mean()), repr(d.variance())), budget=CH),
